@@ -39,8 +39,9 @@ RULE = ("cases = (catalogued variant x record form x GT slots x sample index), e
 
 def BOUNDS(tier):
     return ["genes GA, GB, toy (both builds): every catalogued variant as one VCF record "
-            "(SNP, deletion, insertion, MNP as one record and as adjacent records), REF "
-            "mismatch records, an unrelated complex record mixed in",
+            "(SNP, deletion, insertion, MNP as one record and as adjacent records), SNP "
+            "records whose REF is the catalogued alternative (REF differs from RefSeq), an "
+            "unrelated complex record mixed in",
             "GT slots each in {., 0, 1, 2} (2 = a second, unrelated ALT), 1-2 samples"]
 
 
@@ -91,10 +92,10 @@ def records_for(gene, m, form):
         if form == "plain":
             return [(m.pos + 1, gene[m.pos], op[2])]
         if form == "refmismatch":
-            # the VCF was called against a reference that already has the ALT base:
-            # REF = alt base is not expressible; use a third base as REF (a site where
-            # the VCF reference differs from RefSeq): genotype 0 then means that base
-            return None
+            # the assembly the VCF was called against carries the catalogued ALT base at
+            # this site: REF = catalogued alt, ALT = the RefSeq base. Genotype 0 then
+            # means the catalogued variant, genotype 1 the RefSeq reference.
+            return [(m.pos + 1, op[2], gene[m.pos])]
         return None
     if op.startswith("del") and "ins" not in op:
         a = m.pos - 1
@@ -139,14 +140,14 @@ def run_config(cfg):
     fm = z3.Int("form")
     g1, g2 = z3.Int("gt1"), z3.Int("gt2")
     si = z3.Int("sample")
-    base = [vi >= 0, vi < len(muts), fm >= 0, fm < 2, g1 >= -1, g1 <= 2, g2 >= -1, g2 <= 2,
+    base = [vi >= 0, vi < len(muts), fm >= 0, fm < 3, g1 >= -1, g1 <= 2, g2 >= -1, g2 <= 2,
             si >= 0, si < 2]
     tag = f"{cfg['gene']}/{cfg['genome']}"
-    forms = ["plain", "adjacent"]
+    forms = ["plain", "adjacent", "refmismatch"]
 
     def run():
         m = muts[eng.choose(vi, range(len(muts)))]
-        form = forms[eng.choose(fm, range(2))]
+        form = forms[eng.choose(fm, range(3))]
         a = eng.choose(g1, range(-1, 3))
         b = eng.choose(g2, range(-1, 3))
         s = eng.choose(si, range(2))
@@ -211,12 +212,14 @@ def check_case(gene, m, form, recs, a, b, s):
     cov = smp.coverage
     live = [x for x in gt if x is not None]
     diploid = len(live) == 2
-    k = sum(1 for x in live if x == 1) if diploid else 0
+    carrier = 0 if form == "refmismatch" else 1  # which GT index denotes the variant
+    k = sum(1 for x in live if x == carrier) if diploid else 0
     kd = kind_of(m)
     got = cov.coverage(m)
     if got != 10 * k:
         probs.append(("support", f"vcf-support-{kd}" + ("-adjacent" if form == "adjacent"
-                                                         else ""),
+                                                         else "-refmismatch"
+                                                         if form == "refmismatch" else ""),
                       f"{m} written as {recs} with GT {gt}: support {got}, expected {10 * k}"))
     if smp.name != samples[s]:
         probs.append(("robust", "vcf-sample", f"sample name {smp.name}"))
